@@ -95,6 +95,18 @@ def run_quilt(cs, rng, workdir=None):
         elif op == 'q_iter_window':
             items = [proj_noname(w) for w in q.iter_window(size=cs['size'], step=cs['step'], axis=cs['q']['axis'])]
             res = {'k': 'items', 'items': items}
+        elif op == 'q_iter_window_array':
+            wins = []
+            if cs['items']:
+                labs = list(q.index if cs['q']['axis'] == 0 else q.columns)
+                for k, a in q.iter_window_array_items(size=cs['size'], step=cs['step'], axis=cs['q']['axis']):
+                    wins.append({'dt': P.enc_dtype(a.dtype), 'rows': [[P.enc(x) for x in row] for row in a], 'label': P.enc(k)})
+            else:
+                for a in q.iter_window_array(size=cs['size'], step=cs['step'], axis=cs['q']['axis']):
+                    wins.append({'dt': P.enc_dtype(a.dtype), 'rows': [[P.enc(x) for x in row] for row in a], 'label': ['none']})
+            if cs['loose']:
+                wins = [{'dt': ['any', 0], 'rows': [[_loose_cell(x) for x in row] for row in w['rows']], 'label': w['label']} for w in wins]
+            res = {'k': 'rows_seq', 'wins': wins}
         elif op == 'q_head':
             res = proj_noname(q.head(cs['count']))
         else:
@@ -118,7 +130,7 @@ def run_quilt(cs, rng, workdir=None):
 
 
 # ---- random quilts --------------------------------------------------------------------------------------------------------------------
-def rand_quilt(rng):
+def rand_quilt(rng, own_kinds=False):
     axis = rng.choice([0, 1])
     retain = rng.random() < 0.5
     nm = rng.randint(1, 4)
@@ -132,6 +144,8 @@ def rand_quilt(rng):
         n = min(rng.randint(1, 4), len(pool) - used - (nm - m - 1))          # members of up to 4 positions (stepped slices must be able to skip interior ones)
         labs = pool[used:used + n]
         used += n
+        if own_kinds:          # members need not agree on dtypes: each is homogeneous in a dtype of its own
+            kinds = [rng.choice('ifbU')] * nopp
         cols = [C.rand_column(rng, k, n) for k in kinds]
         for c, k in zip(cols, kinds):
             if k == 'U':
@@ -149,6 +163,10 @@ def rand_quilt(rng):
     return {'members': members, 'axis': axis, 'retain': retain}
 
 
+def _loose_cell(v):
+    return ['na'] if v[0] in ('nan', 'none', 'nat') else (['i', v[1]] if v[0] == 'f' and v[2] == 1 else v)
+
+
 def along_labels(q):
     out = []
     for m in q['members']:
@@ -158,6 +176,11 @@ def along_labels(q):
 
 
 def gen_quilt_case(rng):
+    if rng.random() < 0.06:
+        # array-valued windows over members that are each homogeneous in a dtype of their own (compared by value)
+        q = rand_quilt(rng, own_kinds=True)
+        n = len(along_labels(q))
+        return {'op': 'q_iter_window_array', 'q': q, 'size': rng.randint(1, max(1, n)), 'step': rng.randint(1, 3), 'items': rng.random() < 0.5, 'loose': True}
     q = rand_quilt(rng)
     along = along_labels(q)
     n = len(along)
@@ -195,8 +218,10 @@ def gen_quilt_case(rng):
         one_kind = len({c['dt'][0] for m in q['members'] for c in m['f']['cols']}) == 1
         vias = ['series', 'series_items', 'array'] + (['tuple'] if all(l[0] == 's' for l in opp) and one_kind else [])      # namedtuple fields must be identifiers
         return {'op': 'q_iter', 'q': q, 'via': rng.choice(vias)}
-    if r < 0.95:
+    if r < 0.91:
         return {'op': 'q_iter_window', 'q': q, 'size': rng.randint(1, max(1, n)), 'step': rng.randint(1, 3)}
+    if r < 0.96:
+        return {'op': 'q_iter_window_array', 'q': q, 'size': rng.randint(1, max(1, n)), 'step': rng.randint(1, 3), 'items': rng.random() < 0.5, 'loose': False}
     return {'op': 'q_head', 'q': q, 'count': rng.randint(1, n + 1)}
 
 
@@ -453,7 +478,7 @@ def main(ctx):
         ctx.violation('V', 'Batch.to_frame() is not the concatenation of the per-label results', case={'members': ev['members'], 'ops': ev['ops']}, actual=ev['items'], clause='batch_export')
     ctx.sample({'leg': 'V', 'event': {'cs': {k: v for k, v in events[nR]['cs'].items() if k != 'q'}}})
     return ctx.finish(rule='M/R: members of sizes <<2, 1>> (thorough <<2, 1, 2>>) x both axes x retain on / off x every int / slice / 2-list / mask key on the Quilt axis x 4 keys on the opposite axis; every enumerated selection replayed on real Quilts (30 percent over store-backed Buses with max_persist None / 1 / 2). '
-                           'V: random Quilts (1-4 members of 1-3 positions, 1-3 opposite labels, 4 dtype kinds, random block layouts) x iloc / loc / getitem / to_frame / shape / labels / values / iter_series(_items) / iter_array / iter_tuple / iter_window / head; random Batch chains of 1-3 operations (selection, fillna, isna / notna, dropna, directional fill; direct or through apply; with and without max_workers) and their export; Batch delegation law: %d forwarded methods / operators / chains (all reductions and cumulative functions x axis x skipna, ddof, loc/iloc min/max, operators, clip, isin, transpose, duplicated, roll, shift, sort_*, selection, drop) on members with missing values, label by label against the member itself' % len(BATCH_METHODS))
+                           'V: random Quilts (1-4 members of 1-3 positions, 1-3 opposite labels, 4 dtype kinds, random block layouts) x iloc / loc / getitem / to_frame / shape / labels / values / iter_series(_items) / iter_array / iter_tuple / iter_window / iter_window_array(_items) / head (members may each be homogeneous in a dtype of their own); random Batch chains of 1-3 operations (selection, fillna, isna / notna, dropna, directional fill; direct or through apply; with and without max_workers) and their export; Batch delegation law: %d forwarded methods / operators / chains (all reductions and cumulative functions x axis x skipna, ddof, loc/iloc min/max, operators, clip, isin, transpose, duplicated, roll, shift, sort_*, selection, drop) on members with missing values, label by label against the member itself' % len(BATCH_METHODS))
 
 
 def replay(rec):
